@@ -271,7 +271,7 @@ EXOTIC_IRIS = [
     "http://e/a=b", "http://other.org/x", "file:///x/y", "http://e/\U0001F600", "http://e/a\u00a0b",
     "http://e/a\u2028b", "http://e/ns#", "http://e/a&b", "http://e", "http://e/a/../b",
     "http://e/ns#1x", "http://e/a·b", "http://e/x/a", "http://e/x#a", "a:b", "http://e/%C3%A9",
-    RDFNS + "List", RDFNS + "nil", RDFNS + "_1", XSD + "integer",
+    RDFNS + "List", RDFNS + "nil", RDFNS + "_1", XSD + "integer", TYPE,
 ]
 # predicates: (iri, expressible as an XML element name)
 COMMON_PREDS = ["http://e/p", "http://e/q", "http://e/ns#r", TYPE]
@@ -870,7 +870,7 @@ class NtText(Suite):
     kf = "nt_kf"
     kf_ids = {}     # F15b (reader refusing \\s inside IRIs) was repaired by 4d2427e4; nt_kf is provably 0 now
     corr = "serializers/nt.py:_nt_row,_quoteLiteral,_quote_encode; parsers/ntriples.py:W3CNTriplesParser.parsestring,unquote; compat.decodeUnicodeEscape"
-    quick_n = 1200
+    quick_n = 900
     thorough_n = 12000
     timeout_s = 5.0
 
@@ -1623,7 +1623,167 @@ class TtlList(Suite):
                     yield {"g": [list(t) for t in combo], "ser": ser, "head": 20, "long": False}
 
 
-SUITES = [NtText(), TtlString(), HextRow(), TtlList(), RoundTrip()]
+
+# ---------------------------------------------------------------- K4 statement layer: Turtle text for graphs without blank nodes
+TS_IRIS = ["http://e/a", "http://e/b", "http://e/ns#x", "urn:x:y", "http://e/", "http://e/a.b", "http://e/a.", "http://e/1",
+           "http://e/a-b", "http://e/\u00e9", "http://other.org/x", NIL, "http://e/ns#", "http://e/a/b/", "http://e/(x)",
+           "http://e/a,b", "http://e/a;b", "http://e/_a", RDFNS + "List", XSD + "integer", "http://e/a%20b", "mailto:x@y",
+           TYPE, TYPE]
+TS_PREDS = ["http://e/p", "http://e/q", TYPE, "http://e/ns#r", "http://e/p.", "http://e/", "http://other.org/p", "urn:x:p",
+            RDFNS + "value", "http://e/1p", "http://e/p-q", NIL]
+TS_BINDS = [None, None, [["ex", "http://e/"]], [["", "http://e/"], ["ns", "http://e/ns#"]], [["_u", "http://e/"]],
+            [["ex", "http://e/ns#"], ["o", "http://other.org/"]], [["rdf", "http://e/"]]]
+
+
+def c_tterm(x):
+    if x[0] == "I":
+        return f"(TIri {cstr(x[1])})"
+    return f"(TLit {cstr(x[1])} {copt(x[2], cstr)} {copt(x[3], cstr)})"
+
+
+def c_ttriple(t):
+    return ctuple(cstr(t[0][1]), cstr(t[1][1]), c_tterm(t[2]))
+
+
+class TtlStmt(Suite):
+    name = "ttl_stmt"
+    imports = "From RV Require Import Codec.Model Codec.TurtleStmt."
+    case_ty = "ts_case"
+    obs_ty = "ts_obs"
+    model = "ts_model"
+    oeq = "ts_obs_eqb"
+    spec = "ts_spec"
+    corr = ("serializers/turtle.py: TurtleSerializer.serialize, startDocument, statement, s_default, predicateList, verb, "
+            "objectList, path, p_default, label; term.py: Literal._literal_n3(use_plain=True); read back by the turtle parser")
+    quick_n = 350
+    thorough_n = 6000
+    timeout_s = 5.0
+
+    def gen_obj(self, rng):
+        r = rng.random()
+        if r < 0.35:
+            return ["I", rng.choice(TS_IRIS)]
+        lex = gen_string(rng) if rng.random() < 0.7 else rng.choice(["x", "5", "true", "-12", "a b", ""])
+        k = rng.random()
+        if k < 0.3:
+            return ["L", lex, None, None]
+        if k < 0.5:
+            return ["L", lex, rng.choice(["en", "en-US", "x-1"]), None]
+        if k < 0.65:
+            return ["L", rng.choice(["0", "5", "-12", "12345678901234567890", "7"]), None, XSD + "integer"]
+        if k < 0.75:
+            return ["L", rng.choice(["true", "false"]), None, XSD + "boolean"]
+        return ["L", lex, None, rng.choice(["http://e/dt", XSD + "string", "http://e/ns#dt", "urn:x:dt", XSD + "token2", "http://e/dt."])]
+
+    def gen(self, rng, i):
+        subs = rng.sample(TS_IRIS, rng.choice([1, 1, 2, 3]))
+        g, seen = [], set()
+        for _ in range(rng.choice([1, 2, 3, 4, 6])):
+            t = [["I", rng.choice(subs)], ["I", rng.choice(TS_PREDS[:4] if rng.random() < 0.7 else TS_PREDS)], self.gen_obj(rng)]
+            if repr(t) not in seen:
+                seen.add(repr(t))
+                g.append(t)
+        return {"graph": g, "bind": rng.choice(TS_BINDS)}
+
+    _memo = {}
+
+    def analyse(self, case):
+        k = json.dumps(case, sort_keys=True)
+        if k in self._memo:
+            return self._memo[k]
+        g = build(case["graph"], case["bind"])
+        ser = _TurtleSer(g)
+        stream = io_mod.BytesIO()
+        try:
+            ser.serialize(stream)
+            text = stream.getvalue().decode("utf-8")
+        except CaseTimeout:
+            raise
+        except Exception as e:  # noqa: BLE001
+            res = {"error": type(e).__name__}
+            self._memo[k] = res
+            return res
+
+        def ab(x):
+            if isinstance(x, Literal):
+                return ["L", str.__str__(x), None if x.language is None else str.__str__(x.language),
+                        None if x.datatype is None else str.__str__(x.datatype)]
+            return ["I", str.__str__(x)]
+        ns = [[str(a), str.__str__(b)] for a, b in sorted(ser.namespaces.items())]   # the header, before any further query
+        plan = []
+        for s_ in ser.orderSubjects():
+            props = ser.buildPredicateHash(s_)
+            plan.append([str.__str__(s_), [[str.__str__(p_), [ab(o) for o in props[p_]]] for p_ in ser.sortProperties(props)]])
+        q = []
+        iris = set()
+        for s_, plist in plan:
+            iris.add((False, s_))
+            for p_, os in plist:
+                iris.add((True, p_))
+                for o in os:
+                    if o[0] == "I":
+                        iris.add((False, o[1]))
+                    elif o[3] is not None:
+                        iris.add((False, o[3]))
+        for verb, u in sorted(iris):
+            if u == NIL or (verb and u == TYPE):
+                continue        # written as () / a: label() does not ask getQName
+            r = ser.getQName(URIRef(u), verb)
+            if r is not None:
+                pre, loc = r.split(":", 1)
+                q.append([verb, u, pre, loc])
+        # read the text back with rdflib's own parser
+        try:
+            g2 = Graph().parse(data=text, format="turtle")
+            got = {json.dumps([ab(x) for x in t]) for t in g2}
+            want = [[["I", s_], ["I", p_], o] for s_, plist in plan for p_, os in plist for o in os]
+            back = [t for t in want if json.dumps(t) in got]
+            extra = sorted(got - {json.dumps(t) for t in want})
+            back += [json.loads(x) for x in extra]
+        except CaseTimeout:
+            raise
+        except Exception:  # noqa: BLE001
+            back = None
+        res = {"text": text, "plan": plan, "q": q, "ns": ns, "back": back}
+        self._memo[k] = res
+        if len(self._memo) > 3000:
+            self._memo.clear()
+        return res
+
+    def run_impl(self, case):
+        a = self.analyse(case)
+        if "error" in a:
+            return {"text": "!" + a["error"], "back": None}
+        return {"text": a["text"], "back": a["back"]}
+
+    def coq_case(self, case):
+        a = self.analyse(case)
+        if "error" in a:
+            a = {"plan": [], "q": [], "ns": []}
+        plan = clist(ctuple(cstr(s_), clist(ctuple(cstr(p_), clist(c_tterm(o) for o in os)) for p_, os in plist)) for s_, plist in a["plan"])
+        q = clist(ctuple(ctuple(cbool(v), cstr(u)), ctuple(cstr(pre), cstr(loc))) for v, u, pre, loc in a["q"])
+        ns = clist(ctuple(cstr(x), cstr(y)) for x, y in a["ns"])
+        gtr = clist(c_ttriple(t) for t in case["graph"])
+        return "{| ts_g := %s; ts_ns := %s; ts_q := %s; ts_plan := %s |}" % (gtr, ns, q, plan)
+
+    def coq_obs(self, obs):
+        return ctuple(cstr(obs["text"]), copt(obs["back"], lambda l: clist(c_ttriple(t) for t in l)))
+
+    def features(self, case, obs):
+        a = self.analyse(case)
+        return {"triples": len(case["graph"]), "prefixes_in_header": len(a.get("ns", [])), "prefixed_names": len(a.get("q", [])),
+                "serialiser_raised": int("error" in a), "read_back_ok": int(obs["back"] is not None)}
+
+    def shrink(self, case):
+        g = case["graph"]
+        for i in range(len(g)):
+            if len(g) > 1:
+                yield dict(case, graph=g[:i] + g[i + 1:])
+        if case["bind"]:
+            yield dict(case, bind=None)
+
+
+SUITES = [NtText(), TtlString(), HextRow(), TtlList(), TtlStmt(), RoundTrip()]
 
 TRUSTED = [
     "Coq 8.16.1 kernel and standard library; coqc -Q coq RV",
@@ -1638,6 +1798,13 @@ TRUSTED = [
     "(codecs.StreamReader) is not - binary sources are exercised by conformance only (nt_text documents read from BytesIO, "
     "roundtrip cases through real files)",
     "K3: json.dumps / json.loads of a list of six str (CPython or orjson) is not modelled; the model is the six strings",
+    "K4 statement layer (coq/Codec/TurtleStmt.v): the plan (orderSubjects / buildPredicateHash / sortProperties incl. Python's "
+    "ordering of terms), the prefixed-name decisions getQName -> NamespaceManager.compute_qname / split_uri and the final prefix "
+    "table are INPUTS observed from the serialiser under test by harness ttl_stmt (the theorems quantify over all of them); that "
+    "the plan covers the graph is checked per case, not proved. The reader model of that layer is a reader for the writer's "
+    "sub-language, not a model of notation3.py: it is tied to notation3.py by comparing its triples with rdflib's parse of the "
+    "same text. Python's value parsing behind the bare integer/boolean forms (Literal.value is not None) is not modelled: the "
+    "generator uses -?[0-9]+ and true/false only; xsd:decimal / xsd:double shorthand (open findings F15, F15d) is not modelled",
     "suite roundtrip is CONFORMANCE ONLY: no Coq model of the eight serialisers / six parsers; its verdict is computed by the "
     "Python isomorphism oracle harness/c03.py:isomorphic (backtracking bijection search) and Python trigger predicates "
     "harness/c03.py:triggers; the Coq side (rt_model/rt_spec) only compares two numbers",
@@ -1653,7 +1820,10 @@ ASSUMPTIONS = [
     "hext_row: if the reader under test scopes blank-node labels to the document (fresh BNodes), labels are compared as "
     "'function of the label computed from the column' instead of literally (HextRow.relabel)",
 ]
-RULE = ("nt_text / ttl_string: all strings of length <= 2 over the 14-character alphabet first, then random triples, escape "
+RULE = ("ttl_stmt: graphs of 1-6 triples without blank nodes over 23 IRIs (rdf:nil, rdf:type, IRIs with and without a "
+        "prefixed form), 12 predicates, literals over the special alphabet with languages, custom / xsd:string datatypes, bare "
+        "integers and booleans, 7 prefix-binding sets (empty prefix, '_' prefix, a prefix colliding with rdf); ttl_islist: list "
+        "cells with cyclic / shared / odd tails; nt_text / ttl_string: all strings of length <= 2 over the 14-character alphabet first, then random triples, escape "
         "sequences, damaged documents and documents of 2-12 k characters with CR/LF/CRLF on the 2048-multiples (half of them read "
         "from a byte stream); hext_row: random triples over a vocabulary with '_' / '_:' inside labels and IRIs, and arbitrary "
         "six-column rows; distinct by full case content. roundtrip: a quarter of the cases is padded with runs of 2-, 3- and "
